@@ -5,7 +5,8 @@
     wrappers ([mw_sem], [pdec_sem], [sdec_sem]); [exec] is the registration state machine.
     Quantifiers: every program, every snapshot / decorator list (no length bound), every inner
     handler function, every delivery. *)
-From WM Require Import Base.Prelude Message.Model Handler.RouterHandle Router.Wiring Router.WiringSpec Router.WiringProofs.
+From WM Require Import Base.Prelude Message.Model Handler.RouterHandle Router.Wiring Router.WiringSpec Router.WiringProofs
+  Router.Life Router.LifeProofs Corr.C08 Corr.C09 Router.LifeAccept.
 
 (** What a handler freezes (programs without Stop / failing constructors): if handler [n] was added in [pre] and not started in [pre], then after
     [pre ++ Run/RunHandlers :: post] — whatever [post] registers — its snapshot is exactly the
@@ -153,6 +154,9 @@ Proof. exact c09_model_accepted. Qed.
 Theorem C09_model_accepted_all : forall ops, c09_monitor_st ops (run rinit ops) = true.
 Proof. exact c09_model_accepted_st. Qed.
 
+Theorem C09_router_program_accepted : forall pops, c09_lviolates (LC pops (prun pinit pops)) = false.
+Proof. exact c09_router_program_accepted. Qed.
+Print Assumptions C09_router_program_accepted.
 Print Assumptions C09_started_freezes_registrations.
 Print Assumptions C09_build_nests.
 Print Assumptions C09_nesting.
